@@ -18,8 +18,11 @@ EXPLANATION = (
     'length-format constants of writer and reader agree (threshold 255, marker 0xFF, big-endian 16 bit, value offset 2/4, '
     'advance 1/3) and the capacity adjustment never promises more than the writer can place, enumerated by the checker on '
     'the extracted constants for every raw size 0..65535; R4 every fragmenting loop of the Type 3/4 writers and readers '
-    'covers the data exactly once (slice width == stride, chunk returned == chunk advanced); R5 the Type 3 attribute block '
-    'reader and writer use the same field offsets and checksum.  Equality of read-back octets for concrete memory images '
+    'covers the data exactly once: the Type 3 reader / writer and the Type 4 writer are folded by the checker with the tag commands '
+    'modelled (rules/t3model.py, t4model.py) over grids of Nbr / Nbw / MLc / NLEN size x message length -- block lists partition '
+    '1..ceil(len/16) with at most min(N, 15|13) blocks, the file ends up as NLEN + message; R5 the Type 3 attribute block writer '
+    'folded for sample attributes produces the block of the specification and the reader folded on it returns the same attributes '
+    '(and refuses a wrong checksum).  Equality of read-back octets for concrete memory images '
     'is not decided.')
 
 
